@@ -63,5 +63,18 @@ class RSim(mosaik_api_v3.Simulator):
         return d
 
 
+class RSimAsk(RSim):
+    """the same simulator with a generator-style step that, at the step given by fault = ['step', j, 'askbad:<sid>'], asks
+    mosaik for data of the simulator <sid> (an asynchronous get_data request) before it goes on"""
+    def step(self, time_, inputs, max_advance):
+        f = self.fault
+        if f and f[0] == 'step' and self.nreq['step'] == f[1] and str(f[2]).startswith('askbad'):
+            self.nreq['step'] += 1
+            src = str(f[2]).split(':')[1]
+            yield self.mosaik.get_data({f'{src}.e': ['po']})
+            self.fault = None
+        return super().step(time_, inputs, max_advance)
+
+
 if __name__ == '__main__':
-    sys.exit(mosaik_api_v3.start_simulation(RSim()))
+    sys.exit(mosaik_api_v3.start_simulation(RSimAsk() if os.environ.get('VERIF_RSIM_ASK') else RSim()))
